@@ -47,7 +47,10 @@ def shard(desc):
                     t = 'MeanWithError'
                 m = dict(meta)
                 m['order'] = oname
-                c, marks = sc.prefix_case('%s-%d' % (desc['name'], cid), t, ys, meta=m, via_trait=rng.random() < 0.2)
+                c, marks = sc.prefix_case('%s-%d' % (desc['name'], cid), t, ys, meta=m, via_trait=rng.random() < 0.2,
+                                          noise=(rng if rng.random() < 0.15 else None), serde_ok=common.has_serde(variant))
+                if c.meta.get('noise'):
+                    res.count('cases_with_invisible_ops')
                 if c.meta.get('add'):
                     res.count('cases_added_through_trait')
                 cid += 1
@@ -105,9 +108,9 @@ def run(tier, seed):
     t0 = time.time()
     plan = [('release', 1.0)]
     if tier == 'quick':
-        nseq, variants = 2400, [('release', 1.0), ('dev', 0.25), ('std', 0.15)]
+        nseq, variants = 2400, [('release', 1.0), ('dev', 0.25), ('std', 0.15), ('native', 0.1), ('bare', 0.1)]
     else:
-        nseq, variants = 120000, [('release', 1.0), ('dev', 0.15), ('std', 0.15), ('nightly', 0.05)]
+        nseq, variants = 120000, [('release', 1.0), ('dev', 0.15), ('std', 0.15), ('nightly', 0.05), ('native', 0.05), ('bare', 0.05)]
     total = Result()
     extra = {}
     try:
@@ -131,7 +134,7 @@ def run(tier, seed):
         import bigcount
         for variant in ('release', 'dev'):
             binary = build(variant)
-            bc = [(t, ka, kb) for t in ('Mean', 'Variance') for ka, kb in [(16, 16), (31, 31), (32, 32), (33, 0), (33, 33), (40, 20), (53, 0)]]
+            bc = [(t, ka, kb) for t in ('Mean', 'Variance') for ka, kb in [(16, 16), (31, 31), (32, 32), (33, 0), (33, 33), (40, 20), (53, 0), (62, 62)]]
             descs = [{'name': 'b%s%d' % (variant[0], s), 'variant': variant, 'binary': binary, 'work': bc[s::8], 'prop': PROP,
                       'ar_work': ([(('Mean', 'Variance')[s % 2], 2 ** 32 + 1000 + s)] if (tier == 'thorough' and variant == 'release' and s < 4) else []),
                       'seed': seed * 7 + s} for s in range(8)]
